@@ -55,8 +55,9 @@ Definition run_lease (inp : list N) : list N :=
   match r with
   | self :: lease :: now :: nc :: r' =>
     let '(sd, md) := check_lease cfg self (dec_pairs (N.to_nat nc) r') lease now in
-    (* durations reported in 20ms buckets (rounded): the implementation reads the clock itself *)
-    [b2n sd; (md + 10 * ms) / (20 * ms); (next_interval lease md + 10 * ms) / (20 * ms)]
+    (* durations reported in buckets of a tenth of the lease (rounded): the implementation reads the
+       clock itself, and the harness uses a 2 s lease so that a loaded machine's jitter stays inside a bucket *)
+    [b2n sd; (md + lease / 20) / (lease / 10); (next_interval lease md + lease / 20) / (lease / 10)]
   | _ => []
   end.
 
